@@ -403,6 +403,8 @@ fn rule_of(e: &CheckError) -> (Rule, tree_sitter_graph::Location) {
 const VALID_NEIGHBOURS: &[(&str, &str)] = &[
     ("capture_used_only_in_nested_block", "(identifier) @c { if #true { for x in [1] { print @c } } }"),
     ("capture_used_only_as_scope", "(identifier) @c { node @c.n }"),
+    ("loop_variable_iterated_by_a_nested_loop", "(module) { for xs in [[1, 2], [3]] { for y in xs { print y } print [ z for z in xs ] } }"),
+    ("loop_variable_over_list_capture_bound_by_let_then_iterated", "(module (_)* @stmts) { for s in [@stmts] { let t = s for u in t { print u } } }"),
     ("captures_that_differ_only_in_case", "(function_definition name: (identifier) @name body: (_) @Name) { print @name, @Name }"),
     ("optional_global_with_default_tested_with_some", "global zq_o? = \"d\"\n(module) { if some zq_o { print zq_o } elif none zq_o { } }"),
     ("list_global_with_default_iterated", "global zq_l* = \"\"\n(module) { for x in zq_l { print x } print [ y for y in zq_l ] }"),
